@@ -46,6 +46,10 @@ pub struct FaultSpec {
     pub thread: u8,
     /// recover with rollback() (true) or by dropping the writer (false)
     pub rollback: bool,
+    /// before recovering, keep using the failed writer: add one more document and commit; if both return Ok
+    /// the document must be searchable ("a commit that returns Ok is complete")
+    #[serde(default)]
+    pub reuse: bool,
 }
 #[derive(Clone, Debug, Serialize, Deserialize)]
 pub struct FaultCase {
@@ -101,8 +105,9 @@ impl Sub for Faults {
             any::<bool>(),
             prop_oneof![8 => Just(0u8), 1 => Just(1u8), 1 => Just(2u8), 1 => Just(3u8), 1 => Just(4u8)],
             any::<bool>(),
+            prop::bool::weighted(0.35),
         )
-            .prop_map(|(kind, pos, permanent, thread, rollback)| FaultSpec { kind, pos, permanent, thread, rollback });
+            .prop_map(|(kind, pos, permanent, thread, rollback, reuse)| FaultSpec { kind, pos, permanent, thread, rollback, reuse });
         let nfaults = tier.pick(24usize, 40);
         (cfg, prop::collection::vec(op_strategy(false), 4..30), prop::collection::vec(fault, nfaults..nfaults + 1))
             .prop_map(|(cfg, ops, faults)| FaultCase { cfg, ops, faults })
@@ -324,7 +329,7 @@ pub fn child_main(args: &[String]) -> i32 {
         let rule0 = rule_of(f, usize::MAX);
         let n = dry.log_kinds.iter().filter(|(k, t, p)| rule_matches(&rule0, *k, t, p)).count();
         let nth = idx(f.pos, n.max(1));
-        let res = run_history(&case, Some((rule_of(f, nth), f.rollback)), &cx);
+        let res = run_history(&case, Some((rule_of(f, nth), f.rollback, f.reuse)), &cx);
         let v = match res {
             Ok(r) => json!({
                 "fired": r.fired, "fired_by": r.fired_by, "api_error": r.api_error, "commit_ok_after_fault": r.commit_ok_after_fault,
@@ -358,12 +363,13 @@ struct RunReport {
     api_error: Value,
     commit_ok_after_fault: bool,
     recovered_by: Option<String>,
+    reused_commit_ok: bool,
     fired_after_first_call: bool,
     log_kinds: Vec<(K, String, String)>,
 }
 
 /// Runs the history on a fresh SimDir, optionally with a fault armed, and applies the oracle.
-fn run_history(case: &FaultCase, fault: Option<(FaultRule, bool)>, cx: &Ctx) -> Result<RunReport, Failure> {
+fn run_history(case: &FaultCase, fault: Option<(FaultRule, bool, bool)>, cx: &Ctx) -> Result<RunReport, Failure> {
     let sd = SimDir::new();
     let mut env = Env::with_sim(case.cfg.clone(), Some(sd.clone()))?;
     env.check_quiescence = false;
@@ -371,7 +377,7 @@ fn run_history(case: &FaultCase, fault: Option<(FaultRule, bool)>, cx: &Ctx) -> 
     env.skip_dirty_delete_all = true;
     let mut rep = RunReport::default();
     let armed_at = sd.op_count();
-    if let Some((rule, _)) = &fault {
+    if let Some((rule, _, _)) = &fault {
         sd.set_faults(vec![rule.clone()]);
     }
     let mut failed_api: Option<(usize, String, String)> = None;
@@ -436,6 +442,50 @@ fn run_history(case: &FaultCase, fault: Option<(FaultRule, bool)>, cx: &Ctx) -> 
     };
     // recovery, faults off
     sd.clear_faults();
+    // optional: keep using the failed writer first
+    let reuse = fault.as_ref().map(|f| f.2).unwrap_or(false);
+    let (_s0, f0) = hist_schema();
+    if reuse && failed_api.is_some() {
+        if let Some(w) = env.writer.as_mut() {
+            const REUSE_UID: u64 = 8_000_000;
+            let mut d = tantivy::TantivyDocument::new();
+            d.add_u64(f0.uid, REUSE_UID);
+            d.add_text(f0.grp, "g1");
+            d.add_text(f0.body, "w1");
+            d.add_i64(f0.num, 1);
+            if w.add_document(d).is_ok() {
+                let mut pc_ok = false;
+                if let Ok(mut pc) = w.prepare_commit() {
+                    pc.set_payload("reused");
+                    pc_ok = pc.commit().is_ok();
+                }
+                if pc_ok {
+                    rep.reused_commit_ok = true;
+                    let reader: tantivy::IndexReader = env.index.reader_builder().reload_policy(tantivy::ReloadPolicy::Manual).try_into().or_fail("after_fault:reader_open_failed")?;
+                    let n = reader
+                        .searcher()
+                        .search(&tantivy::query::TermQuery::new(tantivy::Term::from_field_u64(f0.uid, REUSE_UID), tantivy::schema::IndexRecordOption::Basic), &tantivy::collector::Count)
+                        .or_fail("after_fault:search_failed")?;
+                    if n != 1 {
+                        return Err(Failure::new(
+                            "reused_writer_commit_ok_but_incomplete",
+                            format!("after {failed_api:?} the same writer accepted add_document (Ok) and commit (Ok), but the document is found {n} times"),
+                        ));
+                    }
+                    // the rest of the oracle cannot be applied any more (the content of a transaction continued after
+                    // a failure is not defined): stop here after the structural checks
+                    drop(env.writer.take());
+                    let fresh = Index::open(sd.clone()).or_fail("after_fault:index_open_failed")?;
+                    match fresh.validate_checksum() {
+                        Ok(bad) if bad.is_empty() => {}
+                        other => return Err(Failure::new("after_fault:checksum", format!("{other:?}"))),
+                    }
+                    rep.recovered_by = Some("reuse".into());
+                    return Ok(rep);
+                }
+            }
+        }
+    }
     let j_ok = env.commits;
     let recover_with_rollback = fault.as_ref().map(|f| f.1).unwrap_or(false);
     if let Some(mut w) = env.writer.take() {
